@@ -195,6 +195,23 @@ class CombReal:
 
 
 # ======================================================================== C37: CoroLang
+import sys as _sys
+
+_prev_unraisable = _sys.unraisablehook
+
+
+def _quiet_unraisable(u):
+    # a generator left suspended inside a `finally: yield ...` (a decorated coroutine that hangs,
+    # finding F23) complains when it is finalised; that is expected noise, not an observation
+    if isinstance(u.exc_value, RuntimeError) and "ignored GeneratorExit" in str(u.exc_value):
+        return
+    if "make.<locals>" in repr(u.object):       # finalisation of an emitted generator / coroutine
+        return
+    _prev_unraisable(u)
+
+
+_sys.unraisablehook = _quiet_unraisable
+
 _CV = contextvars.ContextVar("verif_corolang", default=0)
 
 
